@@ -485,6 +485,10 @@ class Body:
             for o in outs:
                 if o not in uniq:
                     uniq.append(o)
+            if len(uniq) > 1:
+                # the success payload of a value built as a failure is never produced: not an alternative
+                live = [o for o in uniq if not _impossible_payload(o)]
+                uniq = live or uniq
             e = uniq[0] if len(uniq) == 1 else ('phi', tuple(uniq))
         if not seen:
             self._cache[key] = e
@@ -1083,6 +1087,8 @@ _ADAPTERS = [
     (r'option::Option::<.*>::ok_or(_else)?$|Option<T>::ok_or(_else)?$', {'Ok': 'Some', 'Err': 'None'}),
     (r'result::Result::<.*>::map_err$|Result<T, E>::map_err$', {'Ok': 'Ok', 'Err': 'Err'}),
     (r'result::Result::<.*>::ok$|Result<T, E>::ok$', {'Some': 'Ok', 'None': 'Err'}),
+    # views of an Option: same variant, same payload (modulo references)
+    (r'option::Option::<.*>::(as_ref|as_mut|as_deref|as_deref_mut|cloned|copied)$', {'Some': 'Some', 'None': 'None'}),
 ]
 
 
@@ -1126,6 +1132,15 @@ _INDEX_NAME = '<[T] as std::ops::Index<I>>::index'
 def _is_range_expr(e):
     e = peel(e, calls=False)
     return e[0] == 'aggr' and e[1] == 'adt' and re.search(r'ops::Range(To|From|Inclusive|Full|ToInclusive)?::', e[2] or '') is not None
+
+
+def _impossible_payload(e):
+    if e[0] != 'try':
+        return False
+    x = e[1]
+    if x[0] == 'call' and x[1].endswith('from_residual'):
+        return True
+    return x[0] == 'aggr' and x[1] == 'adt' and x[2].endswith(('Result::Err', 'Option::None'))
 
 
 def mk_try(x):
@@ -1194,7 +1209,7 @@ def mk_field(e, name):
                 return ('call', _INDEX_NAME, (sf[2][0], rng), None)
     if k == 'phi':
         alts = [mk_field(x, name) for x in e[1]]
-        alts = [a for a in alts if a != ('never',)]
+        alts = [a for a in alts if a != ('never',) and not _impossible_payload(a)]
         uniq = []
         for a in alts:
             if a not in uniq:
@@ -1270,6 +1285,7 @@ TRANSPARENT_CALLS = [
     r'Clone>::clone$', r'::to_owned$', r'::to_vec$', r'::into_owned$', r'::to_string$',
     r'From<.*>>::from$', r'Into<.*>>::into$', r'impl .*From<.*> for .*>::from$', r'::as_byte_array$', r'::from_byte_array$',
     r'::borrow_mut$', r'::borrow$', r'::iter$', r'::iter_mut$', r'::into_par_iter$', r'::deref$', r'::clone$',
+    r'option::Option::<&(mut )?T>::cloned$', r'::as_deref$',
 ]
 _TRANSPARENT_RE = [re.compile(p) for p in TRANSPARENT_CALLS]
 
@@ -2565,7 +2581,9 @@ _ITER_CONSUMERS = {'std::iter::Iterator::for_each': 'for_each', 'std::iter::Iter
 _OPT_COMBINATORS = {'std::option::Option::<T>::is_some_and': 'is_some_and', 'std::option::Option::<T>::map_or': 'map_or',
                     'std::option::Option::<T>::map': 'option_map', 'std::result::Result::<T, E>::map': 'result_map',
                     'std::option::Option::<T>::filter': 'option_filter', 'std::option::Option::<T>::is_none_or': 'is_none_or',
-                    'std::result::Result::<T, E>::unwrap_or_else': 'result_unwrap_or_else', 'std::option::Option::<T>::unwrap_or_else': 'option_unwrap_or_else'}
+                    'std::result::Result::<T, E>::unwrap_or_else': 'result_unwrap_or_else', 'std::option::Option::<T>::unwrap_or_else': 'option_unwrap_or_else',
+                    'core::bool::<impl bool>::then': 'bool_then'}
+#   b.then(f) == if b { Some(f()) } else { None }
 #   opt.is_none_or(p) == match opt { Some(x) => p(x), None => true }
 #   res.unwrap_or_else(f) == match res { Ok(x) => x, Err(e) => f(e) };  opt.unwrap_or_else(f) == match opt { Some(x) => x, None => f() }
 #   it.fold(init, f) == { let mut acc = init; for x in it { acc = f(acc, x) } acc }
@@ -2852,6 +2870,21 @@ def _expand_one(raw, raw_by_path, bi, kind, used):
         blk['stmts'].append(B.assign(B.place(d, 'isize'), {'k': 'discr', 'place': B.place(o, oty), 'variants': variants}, span))
         arms = [[0, nb], [1, stub]] if kind == 'option_map' else [[0, stub], [1, nb]]
         blk['term'] = {'k': 'switch', 'discr': B.mv(d, 'isize'), 'arms': arms, 'otherwise': unr, 'discr_ty': 'isize', 'span': span}
+        used.add(f_path)
+        return True
+    if kind == 'bool_then':
+        if args[0].get('k') not in ('move', 'copy'):
+            return False
+        yty = raw_by_path[f_path]['locals'][0]['ty']
+        y = B.local(yty)
+        wrap = B.block([B.assign(dest, {'k': 'aggr', 'akind': 'adt', 'adt': 'std::option::Option', 'adt_full': dest.get('ty', ''), 'variant': 'Some', 'fields': ['0'], 'ops': [B.mv(y, yty)]}, span)],
+                       {'k': 'goto', 'target': target, 'span': span})
+        e = _emit_closure_call(B, raw_by_path, f_local, f_path, [], B.place(y, yty), wrap, span)
+        if e is None:
+            return False
+        nb = B.block([B.assign(dest, {'k': 'aggr', 'akind': 'adt', 'adt': 'std::option::Option', 'adt_full': dest.get('ty', ''), 'variant': 'None', 'fields': [], 'ops': []}, span)],
+                     {'k': 'goto', 'target': target, 'span': span})
+        blk['term'] = {'k': 'switch', 'discr': args[0], 'arms': [[0, nb]], 'otherwise': e, 'discr_ty': 'bool', 'span': span}
         used.add(f_path)
         return True
     if kind in ('result_unwrap_or_else', 'option_unwrap_or_else'):
